@@ -18,6 +18,7 @@ class Obligation:
     self.oid, self.kind, self.desc = oid, kind, desc
     self.pc, self.goal, self.lineno = pc, goal, lineno
     self.verdict = None
+    self.cases = []
     self.time = 0.0
     self.solver = None
     self.model = None
@@ -37,6 +38,7 @@ class Exec(ExprMixin, CallMixin):
     self.exits = {'return': 0, 'raise': 0}
     self._solver = z3.Solver()
     self._solver.set('timeout', quick_timeout_ms)
+    self._qt = quick_timeout_ms
     self.feas_calls = 0
     self.loop_specs = {}
     self.ctr_stack = [ctr]
@@ -63,20 +65,32 @@ class Exec(ExprMixin, CallMixin):
       raise Unsupported(f'sidecar of {ctr.id} names loop ordinals {extra} but the function has {n} loops')
     return n
 
-  def feasible(self, st, cond=None):
+  def feasible(self, st, cond=None, full=False):
     """False only if pc (∧ cond) is definitely unsatisfiable."""
     self.feas_calls += 1
     s = self._solver
     s.push()
     try:
-      # quantified conjuncts are left out: a weaker path condition only keeps more paths
-      # (sound: an infeasible path yields trivially discharged obligations)
+      # quantified conjuncts are left out first: a weaker path condition only keeps more
+      # paths (sound: an infeasible path yields trivially discharged obligations)
+      quant = []
       for p in st.pc:
         if quantifier_free(p):
           s.add(p)
+        else:
+          quant.append(p)
       if cond is not None:
         s.add(cond)
-      return s.check() != z3.unsat
+      if s.check() == z3.unsat:
+        return False
+      if full and quant:
+        s.set('timeout', 150)
+        for p in quant:
+          s.add(p)
+        r = s.check()
+        s.set('timeout', self._qt)
+        return r != z3.unsat
+      return True
     finally:
       s.pop()
 
@@ -88,11 +102,36 @@ class Exec(ExprMixin, CallMixin):
     if z3.is_false(cond):
       return [(st, False)]
     out = []
-    if self.feasible(st, cond):
+    t = self.feasible(st, cond)
+    f = self.feasible(st, z3.Not(cond))
+    if t and f:
+      # both sides survive the quantifier-free check: ask again with the quantified facts
+      t = self.feasible(st, cond, full=True)
+      f = self.feasible(st, z3.Not(cond), full=True) if t else True
+    if t:
       out.append((st.assume(cond), True))
-    if self.feasible(st, z3.Not(cond)):
+    if f:
       out.append((st.assume(z3.Not(cond)), False))
     return out
+
+  def instances(self, specs):
+    """Instances of definitional unfoldings / proved lemmas (sound to assume)."""
+    out = []
+    for kind, name, t in specs or []:
+      if kind == 'unfold':
+        out.append(z3.Implies(t >= 0, self.recdefs[name][1](t)))
+      elif kind == 'lemma':
+        P, lo = self.lemma_fns[name]
+        out.append(z3.Implies(t >= lo, P(t)))
+      else:
+        raise ValueError(kind)
+    return out
+
+  def with_hints(self, oid, st, hints, lineno=None):
+    """Each hint is its own obligation; the returned state may then assume all of them."""
+    for j, hnt in enumerate(hints or []):
+      self.oblige(f'{oid}/hint{j}', 'hint', st, hnt, 'intermediate fact (proved, then used)', lineno)
+    return st.assume(*hints) if hints else st
 
   def oblige(self, oid, kind, st, goal, desc='', lineno=None):
     if self.discovery:
@@ -104,7 +143,9 @@ class Exec(ExprMixin, CallMixin):
       ob.verdict, ob.solver = 'unsat', 'simplify'
       self.obligations.append(ob)
       return
-    self.obligations.append(Obligation(oid, kind, desc, st.pc, goal, lineno))
+    ob = Obligation(oid, kind, desc, st.pc, goal, lineno)
+    ob.cases = list(getattr(self, 'case_atoms', []))
+    self.obligations.append(ob)
 
   def unsupp(self, what, node=None):
     line = getattr(node, 'lineno', None)
@@ -483,12 +524,16 @@ class Exec(ExprMixin, CallMixin):
     k0 = z3.IntVal(0)
     # 1. invariant holds on entry
     st_e = st
+    if spec.facts is not None:
+      st_e = st_e.assume(*self.instances(spec.facts(self.loop_ctx(st_e, k0))))
     self.oblige(f'{oid}/init', 'loop-init', st_e,
                 spec.inv(self.loop_ctx(st_e, k0)), 'invariant holds on loop entry', s.lineno)
     # 2. arbitrary iteration
     kk = fresh('k', I)
     hv = self.havoc(st, names, spec, s.body, lambda x: self.loop_ctx(x, None))
     hv = hv.assume(kk >= 0, spec.inv(self.loop_ctx(hv, kk)))
+    if spec.facts is not None:
+      hv = hv.assume(*self.instances(spec.facts(self.loop_ctx(hv, kk))))
     outs = []
     # --- exit path(s)
     if view is not None:
@@ -514,9 +559,16 @@ class Exec(ExprMixin, CallMixin):
     for bs in body_starts:
       for bo in self.exec_block(s.body, bs):
         if bo.kind in ('normal', 'continue'):
+          if spec.facts is not None:
+            bo = Outcome(bo.kind, bo.st.assume(*self.instances(spec.facts(self.loop_ctx(bo.st, kk)))))
+          if spec.hints is not None:
+            bo = Outcome(bo.kind, self.with_hints(f'{oid}/preserve', bo.st,
+                                                  spec.hints(self.loop_ctx(bo.st, kk)), s.lineno))
           self.oblige(f'{oid}/preserve', 'loop-preserve', bo.st,
                       spec.inv(self.loop_ctx(bo.st, kk + 1)),
                       'loop body preserves the invariant', s.lineno)
+          if spec.pivots is not None and self.obligations and not self.discovery:
+            self.obligations[-1].pivots = spec.pivots(self.loop_ctx(bo.st, kk))
           self.check_loop_frame(spec, bs, bo.st, oid, s)
           if view is not None and view.src is not None:
             self.check_iter_unmodified(view, bs, bo.st, oid, s)
@@ -582,13 +634,26 @@ class Exec(ExprMixin, CallMixin):
     st = st.assume(heap0.alloc >= 0, *self.input_sanity(args, heap0), pre)
     if ctr.defs is not None:
       st = st.assume(ctr.defs(ctx0))
+    self.recdefs = ctr.recdefs(ctx0) if ctr.recdefs is not None else {}
+    self.lemma_fns = {}
+    for name, (basefact, _) in self.recdefs.items():
+      st = st.assume(basefact)
     if ctr.lemmas is not None:
-      # lemmas: each proof step is an obligation under the precondition; the statement is
-      # then available to the rest of the proof (induction schema is the meta-level rule)
-      for name, stmt, steps in ctr.lemmas(ctx0):
-        for j, step in enumerate(steps):
-          self.oblige(f'lemma:{name}/{j}', 'lemma', st, step, f'lemma {name}, proof step {j}')
-        st = st.assume(stmt)
+      # lemmas are proved by induction (base + step for a fresh index, with the unfoldings of
+      # the recursive spec functions at that index); afterwards instances may be used
+      for name, P, lo, uses in ctr.lemmas(ctx0):
+        self.oblige(f'lemma:{name}/base', 'lemma', st, P(z3.IntVal(lo)), f'lemma {name}: base case')
+        i = fresh('ind', I)
+        hyps = [i >= lo, P(i)] + [self.recdefs[u][1](i) for u in uses]
+        # earlier lemmas may be used at i and i+1
+        for prev, (Pp, lop) in self.lemma_fns.items():
+          hyps += [z3.Implies(i >= lop, Pp(i)), z3.Implies(i + 1 >= lop, Pp(i + 1))]
+        self.oblige(f'lemma:{name}/step', 'lemma', st.assume(*hyps), P(i + 1),
+                    f'lemma {name}: induction step')
+        self.lemma_fns[name] = (P, lo)
+    if ctr.entry_facts is not None:
+      st = st.assume(*self.instances(ctr.entry_facts(ctx0)))
+    self.case_atoms = ctr.cases(ctx0) if ctr.cases is not None else []
     self.entry_state = st
     # vacuity guard: the precondition must be satisfiable
     self.pre_sat = self.check_sat(st.pc)
@@ -645,6 +710,10 @@ class Exec(ExprMixin, CallMixin):
     st = o.st
     pre_ctx = C.Ctx(self.entry_args, self.entry_heap, self.entry_heap, env=self.entry_args)
     ctx = C.Ctx(self.entry_args, self.entry_heap, st.heap, result=o.val, env=st.env)
+    if ctr.facts is not None:
+      st = st.assume(*self.instances(ctr.facts(ctx)))
+    if ctr.hints is not None:
+      st = self.with_hints('post', st, ctr.hints(ctx))
     for name, cond in ctr.raises.items():
       self.oblige(f'exit/no-{name}', 'raises-iff', st, z3.Not(cond(pre_ctx)),
                   f'returns normally only when the {name} condition is false')
@@ -664,6 +733,10 @@ class Exec(ExprMixin, CallMixin):
     for name in ctr.may_raise:
       allowed.append(cls_in(exc.cls_term, name))
     label = exc.name or 'exception'
+    if ctr.facts is not None:
+      st = st.assume(*self.instances(ctr.facts(ctx)))
+    if ctr.hints is not None:
+      st = self.with_hints('raise', st, ctr.hints(ctx))
     self.oblige(f'raise:{label}', 'raises', st, z3.Or(allowed) if allowed else z3.BoolVal(False),
                 f'{label} from {exc.origin} escapes only as the contract allows')
     for name, post in ctr.raises_post.items():
